@@ -60,6 +60,12 @@ var authSeq uint64
 type recClients struct {
 	metrics.Clients
 	disconnected int64
+	connected    int64
+}
+
+func (r *recClients) OnConnected() {
+	r.Clients.OnConnected()
+	atomic.AddInt64(&r.connected, 1)
 }
 
 func (r *recClients) OnDisconnected(p bool) {
@@ -92,6 +98,7 @@ func newRecMetrics() *recMetrics {
 }
 
 func (r *recMetrics) Disconnected() int64 { return atomic.LoadInt64(&r.c.disconnected) }
+func (r *recMetrics) Connected() int64    { return atomic.LoadInt64(&r.c.connected) }
 func (r *recMetrics) AddStore() int64     { return atomic.LoadInt64(&r.p.addStore) }
 
 // ---- broker ---------------------------------------------------------------------
